@@ -27,6 +27,18 @@ DETECT = {
     "C18_m1": ("C18", "", ""), "C18_m2": ("C18", "", ""),
     "C19_m1": ("C19", "rtc_once", "hanging by-value method"), "C19_m2": ("C19", "rtc_cut / rtc_multi_cut", "three connections failing one after the other, per-endpoint health"),
     "C20_m1": ("C20", "", ""), "C20_m2": ("C20", "", ""),
+    "C02_m3": ("C02", "data_cancel (wire credit ledger)", "second round; caught as built"), "C02_m4": ("C02", "data_cancel (wire credit ledger)", "second round; caught as built"),
+    "C06_m3": ("C06", "idle", "second round; caught as built (asymmetric timeouts)"),
+    "C06_m4": ("C06", "ret_fault", "second round; dispatcher death while a credit return is parked; panics are now violations of every chmux property"),
+    "C07_m3": ("C07", "life_exhaust (shared with C10)", "second round; exhausted-ports leg and the stuck-connect rule added to C07"),
+    "C07_m4": ("C07", "acc_cancel (shared with C10)", "second round; cancelled-accept leg and the stuck-request rule added to C07"),
+    "C10_m3": ("C10", "life_ldrop (shared with C07)", "second round; listener-drop leg added to C10"), "C10_m4": ("C10", "life", "second round; caught as built"),
+    "C16_m3": ("C16", "bcast_threads", "second round; two sender clones on two OS threads, the value's Clone parks the first sender"),
+    "C16_m4": ("C16", "bcast_calm", "second round; scenarios without a subscriber that keeps up, calm phase after everybody lagged"),
+    "C17_m3": ("C17", "rw_local", "second round; caught as built"),
+    "C17_m4": ("C17", "rw_cut_commit", "second round; connection cut by the remote writer right after a confirmed commit"),
+    "F16_prefix": ("C09", "C09 stream_frames; C05 wiring", "reverse of fix e06cc2e"),
+    "X08_framecap": ("C08", "stream_hostile", "own mutant: receive-side frame length cap of Connect::io removed"),
     "F1_prefix": ("C01", "C01 data legs; C04 typed_base", "reverse of fix a8ebdc3"), "F2_prefix": ("C03", "C03", "reverse of fix 4668553"),
     "F3_prefix": ("C03", "C03", "reverse of fix 530c977"), "F4_prefix": ("C17", "C17 rw_local / rw_remote", "reverse of fix 7c0a1ff"),
     "F10_prefix": ("C11", "C11 life_override", "reverse of fix a0a494e"), "F11_prefix": ("C03", "C03 ret_cancel", "reverse of fix 7f19c43"),
